@@ -378,6 +378,8 @@ func (m *Manager) CreateTCPConnection( // nolint: cyclop
 
 	m.lock.Lock()
 	if m.isDupeTCPConnection(allocation, remoteAddr) {
+		m.lock.Unlock()
+
 		return 0, ErrDupeTCPConnection
 	}
 	m.lock.Unlock()
